@@ -27,7 +27,7 @@ REPO_DEFS := -include sim/repo_config.h -I$(REPO) -I$(REPO)/mtbl -DMTBL_VERIF -I
 
 SEAM_mtbl/writer.c := -include sim/seams.h -Dwrite=sim_write -Dopen=sim_open -Dclose=sim_close -Ddup=sim_dup
 SEAM_mtbl/reader.c := -include sim/seams.h -Dmmap=sim_mmap -Dmunmap=sim_munmap -Dopen=sim_open -Dclose=sim_close
-SEAM_mtbl/sorter.c := -include sim/seams.h -Dmkstemp=sim_mkstemp -Dunlink=sim_unlink -Dclose=sim_close
+SEAM_mtbl/sorter.c := -include sim/seams.h -Dmkstemp=sim_mkstemp -Dmkostemp=sim_mkostemp -Dopen=sim_open -Dunlink=sim_unlink -Dclose=sim_close
 SEAM_mtbl/fileset.c := -include sim/seams.h -Dclock_gettime=sim_clock_gettime
 
 LIBS := -lsnappy -lz -llz4 -lzstd -lpthread -ldl
